@@ -101,6 +101,11 @@ TLC_JAVA = ["java", "-XX:+UseParallelGC", "-cp",
             "/opt/veriftools/tla/tla2tools.jar:/opt/veriftools/tla/CommunityModules-deps.jar"]
 
 
+import threading
+_md_lock = threading.Lock()
+_md_counter = 0
+
+
 class TLCResult:
     def __init__(self):
         self.rc = None
@@ -122,7 +127,11 @@ def run_tlc(module, cfg, workers=None, timeout=900, env=None, simulate=None, dep
             deadlock=True, coverage=False, dfs=False, cwd=SPEC, extra=None, metadir=None, seed=None):
     """Run TLC on spec/<module>.tla with config cfg (path relative to cwd or absolute)."""
     t0 = time.time()
-    md = metadir or os.path.join(WORK, "tlc-meta", "%s-%d-%d" % (os.path.basename(cfg), os.getpid(), int(t0 * 1000) % 100000000))
+    global _md_counter
+    with _md_lock:
+        _md_counter += 1
+        mdn = _md_counter
+    md = metadir or os.path.join(WORK, "tlc-meta", "%s-%d-%d-%d" % (os.path.basename(cfg), os.getpid(), int(t0 * 1000) % 100000000, mdn))
     shutil.rmtree(md, ignore_errors=True)
     os.makedirs(md, exist_ok=True)
     cmd = list(TLC_JAVA)
@@ -144,6 +153,9 @@ def run_tlc(module, cfg, workers=None, timeout=900, env=None, simulate=None, dep
     if extra:
         cmd += extra
     cmd += [module]
+    env = dict(env or {})
+    if str(workers) == "1" and "JAVA_TOOL_OPTIONS" not in env and not dfs:
+        env["JAVA_TOOL_OPTIONS"] = "-XX:TieredStopAtLevel=1"      # many short single-worker JVMs: skip the C2 compiler
     p = sh(cmd, timeout=timeout, env=env, cwd=cwd)
     r = TLCResult()
     r.rc = p.returncode
@@ -291,6 +303,22 @@ def read_ndjson(path):
             line = line.strip()
             if line:
                 rows.append(json.loads(line))
+    return rows
+
+
+def read_ndjson_lenient(path):
+    """like read_ndjson but tolerates a truncated last line (crashed writer)"""
+    rows = []
+    if not os.path.exists(path):
+        return rows
+    with open(path) as f:
+        for line in f:
+            line = line.strip()
+            if line:
+                try:
+                    rows.append(json.loads(line))
+                except ValueError:
+                    break
     return rows
 
 
